@@ -157,10 +157,10 @@ def main():
             return props.replay(pid, a.replay)
         rc = props.check(pid, a.tier, seed, use_cache=not a.no_cache and a.tier != 'thorough', jobs=a.jobs, t0=t0)
         return rc
-    except Undecided as e:
-        print('UNDECIDED property=%s: %s' % (pid, e))
-        return 2
-    except Exception:
+    except Exception as e:
+        if type(e).__name__ == 'Undecided':
+            print('UNDECIDED property=%s: %s' % (pid, e))
+            return 2
         traceback.print_exc()
         print('UNDECIDED property=%s: internal error in the checker' % pid)
         return 2
